@@ -29,6 +29,8 @@ pub enum Case {
     W4 { scripts: Vec<W1Script>, schedule: Vec<u8> },
     /// constructor table: unsupported minimum alignments are refused with a panic (C04)
     W8,
+    /// one chunk of the exhaustive decoder differential (C14, enumeration - not simulation)
+    W5(crate::w5::W5Script),
 }
 
 #[derive(Clone, Debug, Serialize, Deserialize)]
@@ -360,6 +362,10 @@ pub fn run_case(case: &Case, ctx: &Ctx) -> CaseResult {
         Case::W2(s) => w2_result(crate::w2::exec_w2(s)),
         Case::W4 { scripts, schedule } => run_w4(scripts, schedule, ctx),
         Case::W8 => run_w8(),
+        Case::W5(s) => {
+            let rep = crate::w5::exec_w5(s);
+            CaseResult { violations: rep.violations, side: Vec::new(), stats: rep.stats, fp: rep.fp, requests: 0, request_sizes: Vec::new() }
+        }
         Case::W6(s) => {
             let rep = crate::w67::exec_w6(s);
             CaseResult { violations: rep.violations, side: Vec::new(), stats: rep.stats, fp: rep.fp, requests: 0, request_sizes: Vec::new() }
